@@ -13,6 +13,8 @@ use c01::{Family, Kind, families, family_inputs, programs, rename_main};
 use roto::verif::Scalar;
 use vcore::{Cfg, Check, Cx, Finding, Meta, SUB_SETUP, Tier, Value, Violation, json};
 
+mod agg;
+
 const CHUNK: usize = 150;
 
 fn c20_families(tier: Tier) -> Vec<Family> {
@@ -128,11 +130,162 @@ fn unit_table(cfg: &Cfg) -> &'static Vec<(usize, usize)> {
         for c in 0..n.div_ceil(EFFECT_CHUNK) {
             v.push((usize::MAX, c));
         }
+        // aggregate programs (agg.rs)
+        for c in 0..agg_units(cfg).len() {
+            v.push((AGG, c));
+        }
         v
     })
 }
 
 const EFFECT_CHUNK: usize = 120;
+const AGG: usize = usize::MAX - 1;
+
+const AGG_CHUNK: usize = 100;
+const AGG_TYS: [&str; 2] = ["i32", "i64"];
+
+/// (element type, programs) of the aggregate family, see agg.rs
+fn agg_programs() -> &'static Vec<(&'static str, Vec<agg::AggProg>)> {
+    static C: std::sync::OnceLock<Vec<(&'static str, Vec<agg::AggProg>)>> = std::sync::OnceLock::new();
+    C.get_or_init(|| AGG_TYS.iter().map(|t| (*t, agg::programs(t))).collect())
+}
+
+/// (type index, first program) per aggregate unit
+fn agg_units(_cfg: &Cfg) -> Vec<(usize, usize)> {
+    let mut v = vec![];
+    for (ti, (_, ps)) in agg_programs().iter().enumerate() {
+        for lo in (0..ps.len()).step_by(AGG_CHUNK) {
+            v.push((ti, lo));
+        }
+    }
+    v
+}
+
+fn agg_inputs(t: &str) -> Vec<(i64, i64)> {
+    // moderate values: the evaluator (built with overflow checks) stops loudly on wrapping
+    // arithmetic, and offsets, not arithmetic, are the subject here; one wide value per type
+    let wide = if t == "i32" { 1 << 20 } else { 1i64 << 40 };
+    let one = [0i64, 1, 2, 7, -1, -5, 100, wide, -wide];
+    let mut v = vec![];
+    for a in one {
+        for b in one {
+            v.push((a, b));
+        }
+    }
+    v
+}
+
+/// Aggregate programs (records nested to depth 3, enums with record payloads, over
+/// i32 and i64): evaluator against JIT on every input pair.
+fn run_aggregates(c: usize, cx: &mut Cx) {
+    use roto::{NoCtx, TypedFunc};
+    let (ti, lo) = agg_units(&cx.cfg)[c];
+    let (t, all) = &agg_programs()[ti];
+    let progs = &all[lo..(lo + AGG_CHUNK).min(all.len())];
+    let mut src = agg::decls(t);
+    for p in progs {
+        src.push_str(&p.src);
+    }
+    let rt = host::runtime();
+    let tree = roto::FileTree::test_file("c20a.roto", &src, 0);
+    let lowered = match vcore::util::catch(|| roto::verif::lower(tree, &rt)) {
+        Ok(Ok(l)) => l,
+        Ok(Err(e)) => {
+            // the family is made of valid programs: a rejection is a mistake of the generator
+            cx.count("agg_chunks_rejected", 1);
+            cx.note(format!("aggregate chunk {t}/{lo} rejected: {}", e.to_string().lines().take(12).collect::<Vec<_>>().join(" / ")));
+            return;
+        }
+        Err(_) => {
+            cx.count("chunks_not_lowered", 1);
+            return;
+        }
+    };
+    let inputs = agg_inputs(t);
+    let scalar = |x: i64| if *t == "i32" { Scalar::I32(x as i32) } else { Scalar::I64(x) };
+    let mut results: Vec<Vec<Option<Option<Scalar>>>> = vec![];
+    for (i, p) in progs.iter().enumerate() {
+        let mut row = vec![];
+        for (k, (a, b)) in inputs.iter().enumerate() {
+            let sub = ((i as u64) << 20) | ((k as u64) << 1);
+            if !cx.case(sub) {
+                row.push(None);
+                continue;
+            }
+            let name = p.name.clone();
+            match vcore::util::catch(|| lowered.eval_named(&name, &[scalar(*a), scalar(*b)], false, 0)) {
+                Ok(ev) => {
+                    cx.count("eval_completed", 1);
+                    cx.count("agg_eval_completed", 1);
+                    row.push(Some(ev.value));
+                }
+                Err(m) => {
+                    cx.count("eval_panicked", 1);
+                    cx.count(&format!("eval_panic[{}]", panic_class(&m)), 1);
+                    row.push(None);
+                }
+            }
+        }
+        results.push(row);
+    }
+    if !cx.case(SUB_SETUP) {
+        return;
+    }
+    let mut pkg = match vcore::util::catch(move || lowered.codegen()) {
+        Ok(p) => p,
+        Err(_) => {
+            cx.count("chunks_codegen_panicked", 1);
+            return;
+        }
+    };
+    enum F {
+        A(TypedFunc<NoCtx, fn(i32, i32) -> i32>),
+        B(TypedFunc<NoCtx, fn(i64, i64) -> i64>),
+    }
+    for (i, p) in progs.iter().enumerate() {
+        let f = if *t == "i32" { pkg.get_function(&p.name).map(F::A).map_err(|e| e.to_string()) } else { pkg.get_function(&p.name).map(F::B).map_err(|e| e.to_string()) };
+        let Ok(f) = f else {
+            cx.count("agg_get_function_failed", 1);
+            continue;
+        };
+        cx.states(1);
+        let mut vals = std::collections::HashSet::new();
+        let mut reported = false;
+        let mut completed = 0;
+        for (k, (a, b)) in inputs.iter().enumerate() {
+            let Some(ev) = &results[i][k] else { continue };
+            let sub = ((i as u64) << 20) | ((k as u64) << 1) | 1;
+            if !cx.case(sub) {
+                continue;
+            }
+            completed += 1;
+            let got = match &f {
+                F::A(f) => Scalar::I32(f.call(*a as i32, *b as i32)),
+                F::B(f) => Scalar::I64(f.call(*a, *b)),
+            };
+            cx.transitions(1);
+            cx.validated(1);
+            vals.insert(format!("{got:?}"));
+            if *ev != Some(got) && !reported {
+                reported = true;
+                cx.violation(
+                    "eval-differs",
+                    sub,
+                    json!({"family": "aggregates", "kind": p.kind, "type": t, "program": format!("{}{}", agg::decls(t), p.src), "p": a, "q": b}),
+                    json!({"jit_value": format!("{got:?}")}),
+                    json!({"eval_value": format!("{ev:?}")}),
+                );
+            }
+        }
+        if vals.len() > 1 {
+            cx.nontrivial(vcore::util::fnv_str(&format!("agg/{t}/{}", p.kind)));
+        }
+        cx.outcome(vcore::util::fnv_str(&format!("{vals:?}")));
+        if i == 0 {
+            cx.sample(json!({"family": "aggregates", "kind": p.kind, "type": t, "program": p.src, "evaluations_completed": completed}));
+        }
+    }
+}
 
 /// quick: every fourth effect program (the slice rotates with VERIF_SEED);
 /// thorough: all of them
@@ -308,6 +461,10 @@ impl Check for C20 {
             run_effects(c, cx);
             return;
         }
+        if fi == AGG {
+            run_aggregates(c, cx);
+            return;
+        }
         let f = c20_families(cx.cfg.tier)[fi].clone();
         let all = family_programs(fi, &cx.cfg);
         let lo = c * CHUNK;
@@ -463,6 +620,19 @@ impl Check for C20 {
             return json!({"family": "effects", "program": all.get(i).map(|b| print_func(&c08::entry("f", b.clone()))),
                           "input_vector": (sub & 0xFFFFF) >> 1});
         }
+        if fi == AGG {
+            let (ti, lo) = agg_units(cfg)[c];
+            let (t, all) = &agg_programs()[ti];
+            if sub == SUB_SETUP {
+                return json!({"family": "aggregates", "type": t, "first_program": lo, "phase": "lower/codegen"});
+            }
+            let i = lo + (sub >> 20) as usize;
+            let k = ((sub & 0xFFFFF) >> 1) as usize;
+            let (a, b) = agg_inputs(t).get(k).copied().unwrap_or_default();
+            return json!({"family": "aggregates", "type": t, "kind": all.get(i).map(|p| p.kind.clone()),
+                          "program": all.get(i).map(|p| format!("{}{}", agg::decls(t), p.src)), "p": a, "q": b,
+                          "phase": if sub & 1 == 0 { "evaluator" } else { "jit" }});
+        }
         let f = c20_families(cfg.tier)[fi].clone();
         if sub == SUB_SETUP {
             return json!({"family": f.name, "chunk": c, "phase": "lower/codegen"});
@@ -487,15 +657,68 @@ impl Check for C20 {
     }
     fn meta(&self, cfg: &Cfg) -> Meta {
         Meta {
-            rule: "the C01 program families restricted to scalar parameters (expressions of all operators and widths, truth-table programs on boundary inputs, control-flow skeletons incl. calls, match, loops, early return) x boundary input vectors; each program is lowered once, evaluated by the IR evaluator and JIT-compiled from the same IR; non-trivial = evaluator completed and the result differs between two inputs".into(),
+            rule: "(a) the effect-marker programs of C08 and (b) aggregate programs over i32 and i64 (records nested to depth 3 and enums with record payloads; every template — read, write, copy then write, by-value parameter, returned value, if/else join, loop, Option, sub-aggregate passed on / replaced / compared, enum match and equality — instantiated for every leaf of every type), and (c) the C01 program families restricted to scalar parameters (expressions of all operators and widths, truth-table programs on boundary inputs, control-flow skeletons incl. calls, match, loops, early return) x boundary input vectors; each program is lowered once, evaluated by the IR evaluator and JIT-compiled from the same IR; non-trivial = evaluator completed and the result differs between two inputs".into(),
             assumptions: vec!["inputs on which the language leaves the result open (division by zero, MIN / -1) are skipped: the JIT would trap".into()],
-            bounds: json!({"families": c20_families(cfg.tier).iter().map(|f| f.name.clone()).collect::<Vec<_>>()}),
+            bounds: json!({"families": c20_families(cfg.tier).iter().map(|f| f.name.clone()).collect::<Vec<_>>(),
+                           "effect_programs": effect_bodies(cfg).len(),
+                           "aggregate_programs": agg_programs().iter().map(|(t, p)| json!({"type": t, "programs": p.len()})).collect::<Vec<_>>()}),
             states_are: "distinct generated programs".into(),
             transitions_are: "completed evaluator runs compared with the JIT run of the same IR on the same input".into(),
         }
     }
 }
 
+/// triage aid: `c20 --src <file>`: every `fn NAME(p: i32, q: i32) -> i32` of the file,
+/// evaluator against JIT on a few inputs
+fn src_debug(path: &str) {
+    use roto::{NoCtx, TypedFunc};
+    vcore::util::install_quiet_panic_hook();
+    let src = std::fs::read_to_string(path).expect("read");
+    let names: Vec<String> = src
+        .lines()
+        .filter_map(|l| l.strip_prefix("fn ").and_then(|r| r.split('(').next()).map(|s| s.to_string()))
+        .filter(|n| src.contains(&format!("fn {n}(p: i32, q: i32) -> i32")))
+        .collect();
+    let rt = host::runtime();
+    let lowered = match vcore::util::catch(|| roto::verif::lower(roto::FileTree::test_file("d.roto", &src, 0), &rt)) {
+        Ok(Ok(l)) => l,
+        Ok(Err(e)) => return println!("not lowered: {e}"),
+        Err(m) => return println!("lowering panicked: {m}"),
+    };
+    let mut evs = vec![];
+    for n in &names {
+        for (p, q) in [(4, 5), (7, 7), (-3, 9)] {
+            let r = match vcore::util::catch(|| lowered.eval_named(n, &[Scalar::I32(p), Scalar::I32(q)], false, 0)) {
+                Ok(ev) => format!("{:?}", ev.value),
+                Err(m) => format!("PANIC {}", panic_class(&m)),
+            };
+            evs.push(r);
+        }
+    }
+    let mut pkg = lowered.codegen();
+    let mut k = 0;
+    for n in &names {
+        let f: TypedFunc<NoCtx, fn(i32, i32) -> i32> = pkg.get_function(n).expect("get");
+        for (p, q) in [(4, 5), (7, 7), (-3, 9)] {
+            println!("{n}({p},{q}): jit={} eval={}", f.call(p, q), evs[k]);
+            k += 1;
+        }
+    }
+}
+
 fn main() {
+    let args: Vec<String> = std::env::args().collect();
+    if args.get(1).map(|s| s.as_str()) == Some("--src") {
+        return src_debug(&args[2]);
+    }
+    if args.get(1).map(|s| s.as_str()) == Some("--agg-dump") {
+        // the aggregate family as source text (triage aid)
+        let t = args.get(2).map(|s| s.as_str()).unwrap_or("i32");
+        print!("{}", agg::decls(t));
+        for p in agg::programs(t) {
+            print!("// {}\n{}", p.kind, p.src);
+        }
+        return;
+    }
     vcore::main(&C20)
 }
